@@ -1,0 +1,29 @@
+//go:build verif
+// +build verif
+
+// Contracts for package utils, checked by /verif/cmd/govc (comment-only file; see /verif/DESIGN.md).
+package utils
+
+// PkScript observers are pure: their values are functions of the parsed script object.
+//@ func PkScript.Maturity
+//@   pure
+//@   ensures result == ghostu64("psMaturity", recv)
+//@ func PkScript.AddressClass
+//@   pure
+//@   ensures mathint(result) == ghost("psAddrClass", recv)
+//@ func PkScript.IsStaking
+//@   pure
+//@   ensures result == ghostb("psIsStaking", recv)
+//@ func PkScript.IsBinding
+//@   pure
+//@   ensures result == ghostb("psIsBinding", recv)
+//@   ensures !(ghostb("psIsStaking", recv) && ghostb("psIsBinding", recv))
+//@ func PkScript.StdScriptAddress
+//@   pure
+//@   ensures strOf(result) == ghosts("psStdScript", recv)
+//@ func PkScript.StdEncodeAddress
+//@   pure
+//@   ensures result == ghosts("psStdEnc", recv)
+//@ func PkScript.SecondEncodeAddress
+//@   pure
+//@   ensures result == ghosts("psSecondEnc", recv)
